@@ -170,7 +170,7 @@ func CheckValues(rr *RealResult, ref *RefResult) string {
 // CheckPlain: untagged fields keep their initial contents.
 func CheckPlain(b *Built) string {
 	for k, f := range b.PlainVal {
-		if !reflect.DeepEqual(f.Interface(), b.PlainIni[k]) {
+		if !reflect.DeepEqual(f.Interface(), b.PlainIni[k]) && !ValEqual(f.Interface(), b.PlainIni[k]) {
 			return fmt.Sprintf("plain field %s was modified: %#v, initially %#v", k, f.Interface(), b.PlainIni[k])
 		}
 	}
